@@ -35,9 +35,14 @@ type SolverStats struct {
 	Time     time.Duration
 	MaxQuery time.Duration
 	Restarts int
+	ValuesTime  time.Duration
+	ValuesCalls int
 }
 
+var slowLog func(d time.Duration, r SatResult, where string)
+
 type Solver struct {
+	where   string
 	kind    string // "z3", "z3-new", "cvc5"
 	cmd     *exec.Cmd
 	in      *bufio.Writer
@@ -121,41 +126,99 @@ func (s *Solver) send(line string) {
 	s.in.WriteByte('\n')
 }
 
-// define makes sure t is known to the solver.
-func (s *Solver) define(t *Term) {
-	if t.sent || t.op == OpConst {
-		return
+// define declares the variables of t and returns its SMT-LIB text, with
+// let-bindings for sub-terms that occur more than once.
+func (s *Solver) define(t *Term) string {
+	if t.op == OpConst || t.op == OpVar {
+		if t.op == OpVar && !t.sent {
+			s.send(fmt.Sprintf("(declare-const %s %s)", t.name, sortStr(t.w)))
+			t.sent = true
+			s.sent = append(s.sent, t)
+		}
+		return t.ref()
 	}
-	// iterative post-order to avoid deep recursion
+	// pass 1: parent counts (iterative DFS), declaring variables on the way
+	cnt := map[*Term]int{}
+	var order []*Term // post-order
 	type fr struct {
 		t *Term
 		i int
 	}
 	st := []fr{{t, 0}}
+	cnt[t] = 1
 	for len(st) > 0 {
 		f := &st[len(st)-1]
-		if f.t.sent || f.t.op == OpConst {
-			st = st[:len(st)-1]
-			continue
-		}
 		if f.i < int(f.t.na) {
 			ch := f.t.a[f.i]
 			f.i++
-			if !ch.sent && ch.op != OpConst {
+			if ch.op == OpConst {
+				continue
+			}
+			if ch.op == OpVar {
+				if !ch.sent {
+					s.send(fmt.Sprintf("(declare-const %s %s)", ch.name, sortStr(ch.w)))
+					ch.sent = true
+					s.sent = append(s.sent, ch)
+				}
+				continue
+			}
+			cnt[ch]++
+			if cnt[ch] == 1 {
 				st = append(st, fr{ch, 0})
 			}
 			continue
 		}
-		x := f.t
-		if x.op == OpVar {
-			s.send(fmt.Sprintf("(declare-const %s %s)", x.name, sortStr(x.w)))
-		} else {
-			s.send(fmt.Sprintf("(define-fun t%d () %s %s)", x.id, sortStr(x.w), x.body()))
-		}
-		x.sent = true
-		s.sent = append(s.sent, x)
+		order = append(order, f.t)
 		st = st[:len(st)-1]
 	}
+	// pass 2: text of each node, inlining nodes used once
+	txt := make(map[*Term]string, len(order))
+	var lets []string
+	for _, x := range order {
+		var sb strings.Builder
+		switch x.op {
+		case OpExtract:
+			fmt.Fprintf(&sb, "((_ extract %d %d) %s)", x.cval>>8, x.cval&0xff, childText(x.a[0], txt))
+		case OpZExt:
+			fmt.Fprintf(&sb, "((_ zero_extend %d) %s)", int(x.w)-int(x.a[0].w), childText(x.a[0], txt))
+		case OpSExt:
+			fmt.Fprintf(&sb, "((_ sign_extend %d) %s)", int(x.w)-int(x.a[0].w), childText(x.a[0], txt))
+		default:
+			sb.WriteByte('(')
+			sb.WriteString(opNames[x.op])
+			for i := 0; i < int(x.na); i++ {
+				sb.WriteByte(' ')
+				sb.WriteString(childText(x.a[i], txt))
+			}
+			sb.WriteByte(')')
+		}
+		if cnt[x] > 1 && x != t {
+			name := fmt.Sprintf("t%d", x.id)
+			lets = append(lets, "(let (("+name+" "+sb.String()+")) ")
+			txt[x] = name
+		} else {
+			txt[x] = sb.String()
+		}
+	}
+	if len(lets) == 0 {
+		return txt[t]
+	}
+	var out strings.Builder
+	for _, l := range lets {
+		out.WriteString(l)
+	}
+	out.WriteString(txt[t])
+	for range lets {
+		out.WriteByte(')')
+	}
+	return out.String()
+}
+
+func childText(c *Term, txt map[*Term]string) string {
+	if c.op == OpConst || c.op == OpVar {
+		return c.ref()
+	}
+	return txt[c]
 }
 
 // sync makes the solver's assertion stack equal to pc.
@@ -169,9 +232,9 @@ func (s *Solver) sync(pc []*Term) {
 		s.stack = s.stack[:n]
 	}
 	for _, t := range pc[n:] {
-		s.define(t)
+		txt := s.define(t)
 		s.send("(push 1)")
-		s.send("(assert " + t.ref() + ")")
+		s.send("(assert " + txt + ")")
 		s.stack = append(s.stack, t)
 	}
 }
@@ -213,9 +276,9 @@ func (s *Solver) Check(pc []*Term, extra *Term) SatResult {
 	t0 := time.Now()
 	s.sync(pc)
 	if extra != nil {
-		s.define(extra)
+		txt := s.define(extra)
 		s.send("(push 1)")
-		s.send("(assert " + extra.ref() + ")")
+		s.send("(assert " + txt + ")")
 	}
 	lines, err := s.roundtrip("(check-sat)")
 	res := Unknown
@@ -249,6 +312,9 @@ func (s *Solver) Check(pc []*Term, extra *Term) SatResult {
 		}
 	}
 	d := time.Since(t0)
+	if slowLog != nil && d > 500*time.Millisecond {
+		slowLog(d, res, s.where)
+	}
 	s.Stats.Queries++
 	s.Stats.Time += d
 	if d > s.Stats.MaxQuery {
@@ -267,12 +333,17 @@ func (s *Solver) Check(pc []*Term, extra *Term) SatResult {
 
 // Values fetches model values of the given terms; must follow a Sat answer.
 func (s *Solver) Values(ts []*Term) (map[*Term]uint64, error) {
+	t0 := time.Now()
+	defer func() { s.Stats.ValuesTime += time.Since(t0); s.Stats.ValuesCalls++ }()
 	res := make(map[*Term]uint64)
 	var q []*Term
 	for _, t := range ts {
 		if t.op == OpConst {
 			res[t] = t.cval
 			continue
+		}
+		if t.op != OpVar {
+			return nil, fmt.Errorf("get-value of a non-variable term")
 		}
 		s.define(t)
 		q = append(q, t)
